@@ -48,4 +48,4 @@ def run(rep, tier, seed, replay):
         "samples": [{"summary": summ, "labels": hist}],
     })
     rep.assumptions = ["K and W fragments are exercised through their parents (c:, and_b, or_b, thresh)",
-                       "the all-stacks direction is enumerated up to the stated bound, not proved (Theorem B is future work)"]
+                       "the all-stacks predictions are theorems about the model (Properties/C06.v, Properties/TheoremB.v); this enumeration ties the LIBRARY's labels and scripts to that model on every fragment generated, up to the stated stack bound"]
